@@ -67,6 +67,32 @@ def norm_src_expr(v: str) -> str:
     return _WS.sub(" ", re.sub(r"\$\{[^}]*\}", " ${} ", v)).strip()
 
 
+_LIT = re.compile(r"'[^']*'|\"[^\"]*\"")
+
+
+def _outside_literals(v: str, fn) -> str:
+    """apply fn to the stretches of v outside quoted string literals; the literals themselves are kept verbatim"""
+    out, pos = [], 0
+    for m in _LIT.finditer(v):
+        out.append(fn(v[pos:m.start()]))
+        out.append(m.group(0))
+        pos = m.end()
+    out.append(fn(v[pos:]))
+    return "".join(out)
+
+
+def norm_src_expr_lit(v: str) -> str:
+    """like norm_src_expr, but whitespace inside quoted literals is data (sheets whose cells are not whitespace-cleaned)"""
+    return _outside_literals(v, lambda t: _WS.sub(" ", re.sub(r"\$\{[^}]*\}", " ${} ", t))).strip()
+
+
+def norm_obs_expr_lit(v: str, rootname: str) -> str:
+    pat = re.compile(
+        r"(instance\('__last-saved'\))?(current\(\)/)?((\.\./)+[\w.\-]+(/[\w.\-]+)*|(\.\./)*\.\.(?![\w/])|/" + re.escape(rootname) + r"(/[\w.\-]+)+)"
+    )
+    return _outside_literals(v, lambda t: _WS.sub(" ", pat.sub(" ${} ", t))).strip()
+
+
 def observe(xform: str) -> dict:
     """Project the emitted XForm into the facts the C04/C02 envelopes talk about."""
     root = project.parse(xform)
